@@ -378,23 +378,25 @@ def render(t, model, rng):
     return "(%s %s %s)" % (render(t[1], model, rng), k, render(t[2], model, rng))
 
 
-def add_derived(d, model, desc, label, rng):
-    """Create the link described by desc, add it to d under `label`; returns the new ComponentID."""
+def add_derived(d, model, desc, label, rng, to_cid=None):
+    """Create the link described by desc, add it to d under `label` (or under the existing ComponentID `to_cid`,
+    which replaces that attribute's definition in place); returns the ComponentID."""
     k = desc[0]
+    target = to_cid if to_cid is not None else ComponentID(label)
     if k == "fn":
-        link = ComponentLink([model.nodes[n].cid for n in desc[2]], ComponentID(label), using=FUNCS[desc[1]][1])
+        link = ComponentLink([model.nodes[n].cid for n in desc[2]], target, using=FUNCS[desc[1]][1])
         d.add_component_link(link)
     elif k == "ident":
-        link = ComponentLink([model.nodes[desc[1]].cid], ComponentID(label))
+        link = ComponentLink([model.nodes[desc[1]].cid], target)
         d.add_component_link(link)
     elif k == "parsed":
         refs = {model.nodes[n].label: model.nodes[n].cid for n in model.nodes if model.nodes[n].cid is not None}
         cmd = render(desc[1], model, rng)
-        link = ParsedComponentLink(ComponentID(label), ParsedCommand(cmd, refs))
+        link = ParsedComponentLink(target, ParsedCommand(cmd, refs))
         d.add_component_link(link)
     else:
         link = build_binary(desc, model)
-        d.add_component_link(link, label)
+        d.add_component_link(link, to_cid if to_cid is not None else label)
     return link.get_to_id(), link
 
 
@@ -641,15 +643,82 @@ def run_hist(ctx, case):
         # a wrong read does not change the state: the history goes on (only structural mismatches end it)
         return ok
 
+    after_shuffle = False
     for step in range(nsteps):
         live = [n for n in order if model.nodes[n].kind != "world"]
         removable = [n for n in order if model.nodes[n].kind in ("stored_float", "stored_int", "derived")]
         r = rng.random()
+        if after_shuffle and rng.random() < 0.5 and len(removable) >= 2:
+            r = 0.7          # a removal right after the storage order / a definition changed
+        after_shuffle = False
+        der = [n for n in live if model.nodes[n].desc is not None]
+        if 0.40 <= r < 0.50 and len(order) > 2:
+            # ---- reorder the components: a derived attribute may now be stored ahead of its inputs
+            perm = list(order)
+            q = rng.random()
+            if q < 0.35:
+                perm.reverse()
+            elif q < 0.6 and der:
+                # dependants first, in reverse order of creation, then everything else
+                dd = [n for n in reversed(order) if model.nodes[n].desc is not None]
+                perm = dd + [n for n in order if model.nodes[n].desc is None]
+            else:
+                rng.shuffle(perm)
+            hist.append(["reorder", [model.nodes[n].label for n in perm]])
+            try:
+                d.reorder_components([model.nodes[n].cid for n in perm])
+            except Exception as e:   # noqa
+                fail("reorder_failed", {"how": "exception:" + exc_name(e)}, {"error": repr(e)[:300]})
+                return
+            order[:] = perm
+            ctx.count("hist_reorder")
+            if not check_state("reorder", False):
+                return
+            after_shuffle = True
+            continue
+        if 0.32 <= r < 0.40 and der:
+            # ---- re-define an existing derived attribute under its own ComponentID (stays where it is stored),
+            # preferably in terms of a derived attribute stored *after* it
+            cands = [n for n in der if not model.nodes[n].renamed_with_dependants]
+            target = rng.choice(cands) if cands else None
+            pool = [n for n in live if target is not None and n not in model.closure(target) and model.cost(n) <= 30]
+            if target is None or not pool:
+                ctx.count("hist_redefine_not_possible")
+                continue
+            later = [n for n in pool if model.nodes[n].desc is not None and order.index(n) > order.index(target)]
+            ins = [rng.choice(later) if later and rng.random() < 0.7 else rng.choice(pool) for _ in range(rng.randint(1, 2))]
+            t = ["in", ins[0]]
+            for x in ins[1:]:
+                t = [rng.choice(["+", "-", "*"]), t, ["in", x]]
+            kind = rng.random()
+            if kind < 0.6:
+                desc = [rng.choice(["*", "+"]), t, ["c", rng.choice([2, 0.5, 3])]]
+            elif kind < 0.8:
+                desc = ["fn", "lin1" if len(ins) == 1 else "mul2", ins]
+            else:
+                desc = ["parsed", ["*", t, ["c", 2]]]
+            node = model.nodes[target]
+            hist.append(["redefine", node.label, desc])
+            try:
+                add_derived(d, model, desc, node.label, rng, to_cid=node.cid)
+            except Exception as e:   # noqa
+                fail("derived_add_failed", {"how": "exception:" + exc_name(e), "redefine": True}, {"error": repr(e)[:300]})
+                return
+            node.desc = desc
+            model._cache.clear()
+            ctx.count("hist_redefine")
+            if any(model.nodes[x].desc is not None and order.index(x) > order.index(target) for x in ins):
+                ctx.count("hist_redefine_on_later_stored_derived")
+            if not check_state("redefine", False):
+                return
+            after_shuffle = True
+            continue
         if r < 0.5 or len(removable) < 2:
             # ---- add a derived attribute (chains and diamonds arise because inputs favour derived ones)
-            der = [n for n in live if model.nodes[n].desc is not None]
             k = rng.randint(1, 3)
-            ins = [rng.choice(der) if der and rng.random() < 0.6 else rng.choice(live) for _ in range(k)]
+            cheap = [n for n in live if model.cost(n) <= 60] or live
+            cheap_der = [n for n in der if model.cost(n) <= 60]
+            ins = [rng.choice(cheap_der) if cheap_der and rng.random() < 0.6 else rng.choice(cheap) for _ in range(k)]
             q = rng.random()
             if q < 0.6:
                 t = ["in", ins[0]]
@@ -699,6 +768,10 @@ def run_hist(ctx, case):
             direct = {n.nid for n in model.nodes.values() if n.desc is not None and victim in leaves(n.desc)}
             transitive = len(gone - direct - {victim}) > 0
             crosses = any(model.nodes[n].renamed_with_dependants for n in gone)
+            # is some attribute of the closure stored ahead of a member of the closure it depends on?
+            pos = {n: i for i, n in enumerate(order)}
+            out_of_order = any(pos[m] > pos[n] for n in gone if model.nodes[n].desc is not None
+                               for m in leaves(model.nodes[n].desc) if m in gone)
             hist.append(["remove", model.nodes[victim].label])
             try:
                 d.remove_component(model.nodes[victim].cid)
@@ -716,7 +789,10 @@ def run_hist(ctx, case):
                 ctx.count("hist_remove_with_transitive_dependants")
             if len(gone) > 1 and len([n for n in order if model.nodes[n].desc is not None]) > 0:
                 ctx.count("hist_remove_with_dependants_and_surviving_derived")
-            if not check_state("remove", len(gone) > 1, {"removal_closure_crosses_renamed_attribute": crosses}):
+            if out_of_order:
+                ctx.count("hist_remove_with_dependant_stored_before_its_input")
+            if not check_state("remove", len(gone) > 1, {"removal_closure_crosses_renamed_attribute": crosses,
+                                                          "dependant_stored_before_its_input": out_of_order}):
                 return
         else:
             # ---- update_id
@@ -801,7 +877,8 @@ def floors(counters, tier):
             "hist_update_id_with_dependants": 30, "value_compared:binary": 5000, "value_compared:function": 1500,
             "value_compared:parsed": 1500, "component_list_compared": 1500, "history_value_compared": 5000,
             "binary_root_with_constant_operand:left": 30, "binary_root_with_constant_operand:right": 30,
-            "histories_in_data_collection": 50}
+            "histories_in_data_collection": 50, "hist_reorder": 100, "hist_redefine_on_later_stored_derived": 10,
+            "hist_remove_with_dependant_stored_before_its_input": 20}
     for k, lo in need.items():
         if counters.get(k, 0) < lo:
             out.append("fewer than %d %s" % (lo, k))
